@@ -19,7 +19,7 @@ from mc.lattice import chunked
 UTC = timezone.utc
 OFFS = (-14 * 60, -330, 0, 345, 14 * 60)
 BOUNDS = {
-    "quick": {"grid": "G1: ~180 anchors x ms {0,1,499,500,999} x 24 durations (rotating offsets); G2: 3 us-binade-edge anchors (2^49,2^50,2^51 us) x all 1000 ms x 12 durations; G3: ~110 durations x 6 anchors x ms {0,999}; G4: data catalogue (34) x 2 anchors; each inserted singly AND in bulk; all three backends", "ownership": "5 write ops x 5 mutations x 3 read ops x 3 mutated objects + metadata/buckets/create/update aliasing histories", "id_uniqueness": "all histories of 5 ops over insert / bulk insert / delete oldest|newest|middle, ids unique and lookup == listing after every op"},
+    "quick": {"grid": "G1: ~180 anchors x ms {0,1,499,500,999} x 24 durations (rotating offsets); G2: 3 us-binade-edge anchors (2^49,2^50,2^51 us) x all 1000 ms x 12 durations; G3: ~110 durations x 6 anchors x ms {0,999}; G4: data catalogue (34) x 2 anchors; each inserted singly AND in bulk; all three backends", "ownership": "5 write ops x 5 mutations x 3 read ops x 3 mutated objects + metadata/buckets/create/update aliasing histories", "id_uniqueness": "all histories of 5 ops over insert / bulk insert / bulk insert of the same object twice / delete oldest|newest|middle, ids unique and lookup == listing after every op"},
     "thorough": {"grid": "G2 additionally at one anchor per decade 1970..2100, epoch 0 and 2100-12-31T23:59:59, x all 1000 ms x 24 durations; rest as quick"},
 }
 RULE = (
@@ -353,7 +353,7 @@ def _unit_own(backend):
     return u.result()
 
 
-IDOPS = ("ins", "bulk2", "del_oldest", "del_newest", "del_middle")
+IDOPS = ("ins", "bulk2", "bulk2same", "del_oldest", "del_newest", "del_middle")
 
 
 def _unit_ids(args):
@@ -380,6 +380,10 @@ def _unit_ids(args):
                 elif op == "bulk2":
                     b.insert([Event(timestamp=T0 + timedelta(seconds=n + 1), duration=1, data={"n": n + 1}), Event(timestamp=T0 + timedelta(seconds=n + 2), duration=0, data={"n": n + 2})])
                     n += 2
+                elif op == "bulk2same":
+                    same = Event(timestamp=T0 + timedelta(seconds=n + 1), duration=1, data={"n": n + 1})
+                    b.insert([same, same])  # the same object twice: two insertions
+                    n += 1
                 elif live:
                     tgt = live[0] if op == "del_oldest" else live[-1] if op == "del_newest" else live[len(live) // 2]
                     b.delete(tgt)
@@ -390,7 +394,10 @@ def _unit_ids(args):
                 dump = S.dump_bucket(ds, "i")
                 ids = [t[0] for t in dump]
                 bad = None
-                if len(set(ids)) != len(ids) or any(i is None for i in ids):
+                want_n = len(live) + {"ins": 1, "bulk2": 2, "bulk2same": 2}.get(op, -1)
+                if len(dump) != want_n:
+                    bad = ("event-count-wrong-after-op", f"after {hist[: step + 1]}: {len(dump)} events, expected {want_n}")
+                elif len(set(ids)) != len(ids) or any(i is None for i in ids):
                     bad = ("ids-not-unique", f"ids in the bucket after {hist[: step + 1]}: {ids}")
                 else:
                     for t in dump:
@@ -422,7 +429,7 @@ def run(ctx):
     units = [("own", b) for b in S.BACKENDS]
     depth = 6 if ctx.thorough else 5
     for backend in S.BACKENDS:
-        for op in IDOPS[:2]:
+        for op in IDOPS[:3]:
             units.append(("ids", (backend, (op,), depth)))
     for backend in S.BACKENDS:
         k = ctx.workers * (5 if backend == "peewee" else 2)
